@@ -207,15 +207,17 @@ class PtypeScenario(Scenario):
     quick_runs = 1500
     thorough_runs = 150000
     audit_every = 8
-    rule = ('each run = K in 1..3 callers x programs of <= 12 multiply/propagate steps over a shared pool of 17 planes '
-            '(5 generic ptypes + every public plane class) and 3 seed wavefronts, interleaved by the seeded scheduler; '
+    rule = ('each run = K in 1..3 callers x programs of <= 12 (thorough: 24) multiply/propagate steps over a shared pool of about 40 planes '
+            '(5 generic ptypes, every public plane class, explicit-ptype, unsampled, segmented, dark-pair and re-assigned planes) and 9 seed '
+            'wavefronts (every constructor argument, Wavefront.empty), with refused type assignments, series of short-lived planes and, in '
+            'the directed prelude, objects saved by a second interpreter; interleaved by the seeded scheduler; '
             'distinct = distinct history digest (sequence of calls and outcome digests); non-trivial = at least one '
             'refusal (fault F5) fired and at least one table/class/propagate oracle compared an outcome')
     state_measure = 'distinct (wavefront ptype, plane ptype-or-class, outcome) triples and (from-type, propagator, outcome) triples'
     assumptions = ['documentation tables parse (else HARNESS-ERROR)',
                    'a legal step is one that is type-legal by the documented table AND pixel-scale compatible; '
                    'type-illegal steps are generated only with pixel-scale-compatible planes so TypeError is the only admissible refusal',
-                   'program length bound 12 per caller']
+                   'program length bound 12 per caller (24 in the thorough tier)']
 
     def __init__(self):
         self._doc = None
